@@ -639,7 +639,7 @@ fn run(args: &[String]) -> i32 {
             total_runs: runs,
             block,
             workers,
-            max_wall_s: if tier == "thorough" { 1500.0 } else { 100.0 },
+            max_wall_s: simcore::env_u64("VERIF_MAX_WALL_S", if tier == "thorough" { 1500 } else { 100 }) as f64,
             max_violations: 16,
             env: determinism::worker_env(),
         };
